@@ -4,11 +4,18 @@
 //! and therefore has 'unsafe' code.
 
 use std::time::Duration;
+use std::sync::atomic::{AtomicUsize, Ordering};
 use thread_timer::ThreadTimer;
 
 use super::logic_var::*;
 
 static mut SUIRON_STOP_QUERY: bool = false;
+
+// Identifies the query timer which is currently allowed to stop the query.
+// ThreadTimer::cancel() can fail (it gives up when it cannot get the timer's
+// lock at once), in which case the timer fires later, during another query.
+// A timer whose generation is no longer current does nothing.
+static TIMER_GENERATION: AtomicUsize = AtomicUsize::new(0);
 
 /// Create a timer with a timeout in milliseconds.
 ///
@@ -27,9 +34,14 @@ static mut SUIRON_STOP_QUERY: bool = false;
 /// ```
 pub fn start_query_timer(milliseconds: u64) -> ThreadTimer {
     unsafe { SUIRON_STOP_QUERY = false; }
+    let generation = TIMER_GENERATION.fetch_add(1, Ordering::SeqCst) + 1;
     let timer = ThreadTimer::new();
     timer.start(Duration::from_millis(milliseconds),
-                move || { stop_query(); }).unwrap();
+                move || {
+                    if TIMER_GENERATION.load(Ordering::SeqCst) == generation {
+                        stop_query();
+                    }
+                }).unwrap();
     return timer;
 } // start_query_timer()
 
@@ -45,6 +57,8 @@ pub fn start_query_timer(milliseconds: u64) -> ThreadTimer {
 /// cancel_timer(timer);
 /// ```
 pub fn cancel_timer(timer: ThreadTimer) {
+    // Invalidate the timer, in case cancel() fails.
+    TIMER_GENERATION.fetch_add(1, Ordering::SeqCst);
     match timer.cancel() {
         Ok(_) => {},
         Err(_) => {},
